@@ -3,19 +3,20 @@ Proofs for C12 (cut / header-damaged recordio files).
 -/
 import SST.Spec.RecordIODamage
 import SST.Proofs.RecordIO
+import SST.Proofs.Crc
 namespace SST.Proofs
 open SST Generated
 
 /-- CRC-32C detects every single-byte change: two byte strings of equal length that differ in exactly one
 position have different checksums. -/
 theorem crc32c_single_byte (a : Bytes) (i : Nat) (hi : i < a.length) (x : UInt8) (hx : x ≠ a[i]) :
-    crc32c (a.set i x) ≠ crc32c a := by
-  sorry
+    crc32c (a.set i x) ≠ crc32c a :=
+  crc32c_single_byte' a i hi x hx
 
 /-- CRC-64/ISO likewise (used by C09). -/
 theorem crc64_single_byte (a : Bytes) (i : Nat) (hi : i < a.length) (x : UInt8) (hx : x ≠ a[i]) :
-    crc64iso (a.set i x) ≠ crc64iso a := by
-  sorry
+    crc64iso (a.set i x) ≠ crc64iso a :=
+  crc64_single_byte' a i hi x hx
 
 theorem truncate_prefix (c : Compression) (ct : Nat) (rs : List GoBytes)
     (hl : LawfulC c) (hf : ∀ r ∈ rs, FitsRec c r) (hct : ct ≤ maxCompression) (n : Nat) :
@@ -37,14 +38,42 @@ theorem header_alter_detected_partial (c : Compression) (r : GoBytes) (pre rest 
     (∃ e, readAt c (pre ++ (encRecord c r).set i x ++ rest) pre.length = .error e) := by
   sorry
 
+theorem le32_length (n : Nat) : (le32 n).length = 4 := rfl
+
+theorem le32Dec_le32 (n : Nat) (h : n < 2 ^ 32) : le32Dec (le32 n) = some n := by
+  simp only [le32, le32Dec]
+  rw [toNat_ofNat_lt _ (Nat.mod_lt _ (by decide)), toNat_ofNat_lt _ (Nat.mod_lt _ (by decide)),
+    toNat_ofNat_lt _ (Nat.mod_lt _ (by decide)), toNat_ofNat_lt _ (Nat.mod_lt _ (by decide))]
+  congr 1; omega
+
+theorem parseFileHeader_le32 (v ct : Nat) (rest : Bytes) (hv : v < 2 ^ 32) (hc : ct < 2 ^ 32) :
+    parseFileHeader (le32 v ++ le32 ct ++ rest) =
+      if v > currentVersion ∨ v < minVersion then .error .rejected
+      else if ct > maxCompression then .error .rejected
+      else .ok (v, ct) := by
+  have h1 : (le32 v ++ le32 ct ++ rest).take 4 = le32 v := by
+    rw [List.append_assoc, List.take_left' (le32_length v)]
+  have h2 : ((le32 v ++ le32 ct ++ rest).drop 4).take 4 = le32 ct := by
+    rw [List.append_assoc, List.drop_left' (le32_length v), List.take_left' (le32_length ct)]
+  have h3 : ¬ (le32 v ++ le32 ct ++ rest).length < fileHeaderSize := by
+    simp only [List.length_append, le32_length, fileHeaderSize]; omega
+  unfold parseFileHeader
+  rw [if_neg h3, h1, h2, le32Dec_le32 v hv, le32Dec_le32 ct hc]
+
 theorem file_header_rejected (v ct : Nat) (rest : Bytes) (hv : v < 2 ^ 32) (hc : ct < 2 ^ 32)
     (hbad : v > currentVersion ∨ v < minVersion ∨ ct > maxCompression) :
     parseFileHeader (le32 v ++ le32 ct ++ rest) = .error .rejected := by
-  sorry
+  rw [parseFileHeader_le32 v ct rest hv hc]
+  by_cases h : v > currentVersion ∨ v < minVersion
+  · rw [if_pos h]
+  · rw [if_neg h, if_pos (by omega)]
 
 theorem file_header_accepted (v ct : Nat) (rest : Bytes)
     (hv : minVersion ≤ v ∧ v ≤ currentVersion) (hc : ct ≤ maxCompression) :
     parseFileHeader (le32 v ++ le32 ct ++ rest) = .ok (v, ct) := by
-  sorry
+  have h1 : currentVersion = 4 := rfl
+  have h2 : maxCompression = 3 := rfl
+  rw [parseFileHeader_le32 v ct rest (by omega) (by omega)]
+  rw [if_neg (by omega), if_neg (by omega)]
 
 end SST.Proofs
